@@ -190,7 +190,7 @@ def rule_start_lines(ck):
 # ---------------------------------------------------------------------------
 # EXC: total helpers
 
-SAFE_STR = {"split", "rsplit", "strip", "lstrip", "rstrip", "find", "rfind", "count", "lower", "upper", "partition", "rpartition", "startswith", "endswith", "replace", "join", "append", "items", "get", "pop0"}
+SAFE_STR = {"split", "rsplit", "strip", "lstrip", "rstrip", "find", "rfind", "count", "lower", "upper", "partition", "rpartition", "startswith", "endswith", "replace", "join", "append", "items", "get", "pop0", "isdigit", "isdecimal", "isnumeric", "isascii", "isalnum", "isalpha", "isspace"}
 SAFE_FUNCS = {"len", "native_str", "chr", "str", "dict", "list", "tuple", "isinstance", "bool"}
 TRUSTED_STDLIB = {"email.utils.decode_params", "email.utils.collapse_rfc2231_value"}
 
